@@ -484,3 +484,105 @@ def ail_raises(ctx, st, exc):
 
 UNITS.append(Unit("C16", "jsonargparse._link_arguments:ActionLink.apply_instantiation_links", ail_setup, ail_post, ail_raises, max_paths=20000,
                   trusted=["set_target_value(action, value, cfg) stores value at the link's target (C15 unit)", "get_link_actions lists the instantiate links not yet applied", "one link with one source per scenario"]))
+
+
+# ------------------------------------------------------------------------------------------------ ActionLink.reorder
+# instantiate_classes builds the components in reorder(instantiation_order, components): a component belongs to the first key of the
+# order that names it (its dest equals the key or lies below it); groups follow the order of the keys; components named by no key
+# come last; inside a group and among the rest the declaration order is kept; every component appears exactly once.
+def ro_setup(ctx):
+    n, m = [(0, 2), (1, 1), (1, 3), (2, 2), (2, 3), (3, 2), (3, 3), (2, 4)][ctx.choose(8, "sizes(order,components)")]
+    keys = [z3.String(f"order{i}") for i in range(n)]
+    dests = [z3.String(f"dest{j}") for j in range(m)]
+    comps = [Rec("Action", attrs={"dest": d, "index": j}) for j, d in enumerate(dests)]
+    return Setup(env={"order": list(keys), "components": list(comps)}, data=dict(keys=keys, dests=dests, comps=comps, n=n, m=m))
+
+
+def ro_post(ctx, st, result):
+    d = st.data
+    n, m = d["n"], d["m"]
+    tag = f"[{n} keys,{m} components]"
+    once = isinstance(result, list) and len(result) == m and sorted(c.attrs["index"] for c in result) == list(range(m)) and all(result[i] is d["comps"][result[i].attrs["index"]] for i in range(m))
+    ctx.oblige("post", "every-component-appears-exactly-once(nothing dropped, nothing duplicated)" + tag, once)
+    if not once:
+        return
+    dot = z3.StringVal(".")
+
+    def named(i, j):
+        return z3.Or(d["keys"][i] == d["dests"][j], z3.PrefixOf(z3.Concat(d["keys"][i], dot), d["dests"][j]))
+
+    def group(j):
+        g = z3.IntVal(n)  # named by no key: after all groups
+        for i in reversed(range(n)):
+            g = z3.If(named(i, j), z3.IntVal(i), g)
+        return g
+
+    idx = [c.attrs["index"] for c in result]
+    goals = []
+    for a, b in zip(idx, idx[1:]):
+        goals.append(z3.Or(group(a) < group(b), z3.And(group(a) == group(b), z3.BoolVal(a < b))))
+    ctx.oblige("post", "components-follow-the-order-of-the-keys(first key that names them);declaration-order-within-a-group-and-among-the-unnamed,which-come-last" + tag,
+               z3.And(*goals) if goals else z3.BoolVal(True), strings=True)
+
+
+def ro_raises(ctx, st, exc):
+    ctx.oblige("raises", f"never-raises(got {exc.cls}@{exc.origin})", False)
+
+
+UNITS.append(Unit("C16", "jsonargparse._link_arguments:ActionLink.reorder", ro_setup, ro_post, ro_raises, max_paths=20000, split=8,
+                  trusted=["complete case analysis for <= 3 order keys x <= 3 components (and 2 x 4), keys and dests arbitrary strings"]))
+
+
+# ------------------------------------------------------------------------------------------------ ActionLink.instantiation_order
+def io_setup(ctx):
+    scen = ["no-links", "one-link", "chain", "two-sources", "init_args-target", "nested-targets", "nested-init_args-targets", "same-target-twice"][ctx.choose(8, "links")]
+    A = lambda dest: Rec("Action", attrs={"dest": dest})  # noqa: E731
+    L = lambda sources, target: Rec("ActionLink", attrs={"source": [(s, A(s)) for s in sources], "target": (target, A(target.split(".")[0]))})  # noqa: E731
+    links = {
+        "no-links": [],
+        "one-link": [L(["a"], "b.x")],
+        "chain": [L(["a"], "b.x"), L(["b"], "c.y")],
+        "two-sources": [L(["a", "d"], "b.x")],
+        "init_args-target": [L(["a"], "m.init_args.x")],
+        "nested-targets": [L(["a"], "b.x"), L(["c"], "b.sub.y")],
+        "nested-init_args-targets": [L(["a"], "m.init_args.x"), L(["c"], "m.init_args.child.init_args.y")],
+        "same-target-twice": [L(["a"], "b.x"), L(["c"], "b.y")],
+    }[scen]
+    edges = []
+    order_result = Rec("topological order")
+    graph = Rec("DirectedGraph", methods={"add_edge": lambda c, s_, a, k: edges.append((a[0], a[1])), "get_topological_order": lambda c, s_, a, k: (c.event("order-of", list(edges)), order_result)[1]})
+
+    def re_sub(c, a, k):
+        import re as _re
+        return _re.sub(a[0], a[1], a[2])  # concrete strings: CPython's own re
+
+    calls = {"get_link_actions": lambda c, a, k: (c.event("links-looked-up", a[1]), list(links))[1], "DirectedGraph": lambda c, a, k: graph, "re.sub": re_sub}
+    return Setup(env={"parser": Rec("ArgumentParser")}, calls=calls, inline={"split_key_leaf": "jsonargparse._namespace:split_key_leaf", "split_key": "jsonargparse._namespace:split_key"},
+                 data=dict(scen=scen, edges=edges, order_result=order_result))
+
+
+IO_EXPECT = {
+    # edges source component -> target component; plus target -> enclosing target (the inner object is built first and handed to the outer one)
+    "one-link": {("a", "b")}, "chain": {("a", "b"), ("b", "c")}, "two-sources": {("a", "b"), ("d", "b")}, "init_args-target": {("a", "m")},
+    "nested-targets": {("a", "b"), ("c", "b.sub"), ("b.sub", "b")}, "nested-init_args-targets": {("a", "m"), ("c", "m.init_args.child"), ("m.init_args.child", "m")},
+    "same-target-twice": {("a", "b"), ("c", "b")},
+}
+
+
+def io_post(ctx, st, result):
+    d = st.data
+    tag = f"[{d['scen']}]"
+    if d["scen"] == "no-links":
+        ctx.oblige("post", "no-instantiation-links=>no-constraint(empty order)" + tag, result == [] and not d["edges"])
+        return
+    ctx.oblige("post", "one-edge-per-(source component -> target component)-and-per-(nested target -> enclosing target);no-other-edge" + tag, set(d["edges"]) == IO_EXPECT[d["scen"]])
+    ctx.oblige("post", "the-order-returned-is-the-topological-order-of-exactly-that-graph" + tag, result is d["order_result"] and [e for e in ctx.events if e[0] == "order-of"] == [("order-of", list(d["edges"]))])
+    ctx.oblige("post", "only-links-applied-on-instantiate-are-considered" + tag, ("links-looked-up", "instantiate") in ctx.events)
+
+
+def io_raises(ctx, st, exc):
+    ctx.oblige("raises", f"never-raises(got {exc.cls}@{exc.origin})", False)
+
+
+UNITS.append(Unit("C16", "jsonargparse._link_arguments:ActionLink.instantiation_order", io_setup, io_post, io_raises,
+                  trusted=["DirectedGraph.add_edge / get_topological_order by contract (their own units)", "get_link_actions(parser, 'instantiate') lists the instantiation links", "re.sub on concrete strings evaluated by CPython"]))
